@@ -59,11 +59,12 @@ theorem ansIds_answer (s : Cl) (a : Nat) (h : How) (id : Nat) :
 
 /-- the places as four counts -/
 theorem places_count (s : Cl) (id : Nat) :
-    (places s).count id = s.locked.count id + s.pending.count id + (inWriter s).count id + s.processing.count id := by
+    (places s).count id = s.waiting.count id + s.locked.count id + s.pending.count id + (inWriter s).count id + s.processing.count id := by
   simp only [places, List.count_append]
 
 
 @[simp] theorem answer_locked (s : Cl) (a : Nat) (h : How) : (answer s a h).locked = s.locked := rfl
+@[simp] theorem answer_waiting (s : Cl) (a : Nat) (h : How) : (answer s a h).waiting = s.waiting := rfl
 @[simp] theorem answer_pending (s : Cl) (a : Nat) (h : How) : (answer s a h).pending = s.pending := rfl
 @[simp] theorem answer_processing (s : Cl) (a : Nat) (h : How) : (answer s a h).processing = s.processing := rfl
 @[simp] theorem answer_accepted (s : Cl) (a : Nat) (h : How) : (answer s a h).accepted = s.accepted := rfl
@@ -71,7 +72,7 @@ theorem places_count (s : Cl) (id : Nat) :
 @[simp] theorem inWriter_answer (s : Cl) (a : Nat) (h : How) : inWriter (answer s a h) = inWriter s := rfl
 
 theorem cnt_def (s : Cl) (id : Nat) :
-    cnt s id = s.locked.count id + s.pending.count id + (inWriter s).count id + s.processing.count id + (ansIds s).count id := by
+    cnt s id = s.waiting.count id + s.locked.count id + s.pending.count id + (inWriter s).count id + s.processing.count id + (ansIds s).count id := by
   simp only [cnt, places_count]
 
 /-! ### one step -/
@@ -87,40 +88,77 @@ theorem inv_step (s s' : Cl) (l : Label) (hi : Inv s) (hs : step s l = some s') 
     · simp [ha] at hs
     · rw [if_neg ha] at hs
       have hc0 : s.accepted.count a = 0 := List.count_eq_zero.mpr ha
+      injection hs with hs; subst hs
+      refine ⟨?_, ?_, hi.drainedNoLocked, hi.readerGone, hi.writerGone, hi.drainedIff, hi.finishedEmpty, hi.doneIff, hi.quitConn⟩
+      · intro id
+        have hp := hi.part id
+        rw [cnt_def] at hp ⊢
+        simp only [inWriter, ansIds] at hp ⊢
+        rw [count_cons', count_cons']
+        omega
+      · intro id
+        have := hi.fresh id
+        rw [count_cons']
+        by_cases hid : id = a
+        · subst hid; simp; omega
+        · simp [hid]; exact this
+  | turnTake a =>
+    simp only [step] at hs
+    by_cases hc : a ∈ s.waiting ∧ s.locked = []
+    · rw [if_pos hc] at hs
       by_cases hd : s.drained = true
       · rw [if_pos hd] at hs
         injection hs with hs; subst hs
-        refine ⟨?_, ?_, ?_, hi.readerGone, hi.writerGone, hi.drainedIff, hi.finishedEmpty, hi.doneIff, hi.quitConn⟩
+        refine ⟨?_, hi.fresh, ?_, hi.readerGone, hi.writerGone, hi.drainedIff, hi.finishedEmpty, hi.doneIff, hi.quitConn⟩
         · intro id
           have hp := hi.part id
           rw [cnt_def] at hp ⊢
           rw [ansIds_answer]; simp only [ansIds] at hp ⊢
+          have he := count_erase_add s.waiting a id hc.1
           simp only [answer, inWriter] at hp ⊢
-          rw [count_cons']
           omega
-        · intro id
-          have := hi.fresh id
-          simp only [answer]; rw [count_cons']
-          by_cases hid : id = a
-          · subst hid; simp; omega
-          · simp [hid]; exact this
-        · intro _; exact hdr hd
+        · intro _; exact hc.2
       · rw [if_neg hd] at hs
         injection hs with hs; subst hs
-        refine ⟨?_, ?_, ?_, hi.readerGone, hi.writerGone, hi.drainedIff, hi.finishedEmpty, hi.doneIff, hi.quitConn⟩
+        refine ⟨?_, hi.fresh, ?_, hi.readerGone, hi.writerGone, hi.drainedIff, hi.finishedEmpty, hi.doneIff, hi.quitConn⟩
         · intro id
           have hp := hi.part id
           rw [cnt_def] at hp ⊢
-          simp only [inWriter, ansIds] at hp ⊢
-          rw [count_cons', count_cons']
-          omega
-        · intro id
-          have := hi.fresh id
+          have he := count_erase_add s.waiting a id hc.1
+          simp only [inWriter, ansIds, hc.2, List.count_nil] at hp ⊢
           rw [count_cons']
-          by_cases hid : id = a
-          · subst hid; simp; omega
-          · simp [hid]; exact this
+          simp only [List.count_nil]
+          omega
         · intro h; exact absurd h hd
+    · simp [hc] at hs
+  | turnQuit a =>
+    simp only [step] at hs
+    by_cases hc : a ∈ s.waiting ∧ s.quit = true
+    · rw [if_pos hc] at hs
+      injection hs with hs; subst hs
+      refine ⟨?_, hi.fresh, hi.drainedNoLocked, hi.readerGone, hi.writerGone, hi.drainedIff, hi.finishedEmpty, hi.doneIff, hi.quitConn⟩
+      intro id
+      have hp := hi.part id
+      rw [cnt_def] at hp ⊢
+      rw [ansIds_answer]; simp only [ansIds] at hp ⊢
+      have he := count_erase_add s.waiting a id hc.1
+      simp only [answer, inWriter] at hp ⊢
+      omega
+    · simp [hc] at hs
+  | turnAbort a =>
+    simp only [step] at hs
+    by_cases hc : a ∈ s.waiting ∧ a ∈ s.abortable
+    · rw [if_pos hc] at hs
+      injection hs with hs; subst hs
+      refine ⟨?_, hi.fresh, hi.drainedNoLocked, hi.readerGone, hi.writerGone, hi.drainedIff, hi.finishedEmpty, hi.doneIff, hi.quitConn⟩
+      intro id
+      have hp := hi.part id
+      rw [cnt_def] at hp ⊢
+      rw [ansIds_answer]; simp only [ansIds] at hp ⊢
+      have he := count_erase_add s.waiting a id hc.1
+      simp only [answer, inWriter] at hp ⊢
+      omega
+    · simp [hc] at hs
   | sendEnq a =>
     simp only [step] at hs
     by_cases hc : a ∈ s.locked ∧ s.pending.length < s.cap
